@@ -137,3 +137,27 @@ func TestC16Model(t *testing.T) {
 		},
 	}.Run(t)
 }
+
+func TestC11Model(t *testing.T) {
+	p := prof("c11", map[Op]int{OpPose: 40, OpTick: 22, OpEntityAdd: 14, OpEntityDel: 8, OpJoin: 6, OpClose: 3})
+	p.NilSub = true
+	ModelCheck{Prop: "C11", Part: "H", Profile: p,
+		Rule: genRule + "weights favour pose updates (sequence number in px; arbitrary float bit patterns; foreign, unknown, deleted entities; absent pose) and frame ticks; per frame exactly the latest update of each owned live entity must be applied and relayed once; non-trivial = distinct script in which >=2 updates of one entity fell into one frame and an update was still pending when its entity was deleted or named an unknown/foreign entity",
+		NT: func(e *Exec, sc Script) bool {
+			return lab(e, "pose_coalesced", "pose_applied") && anyLab(e, "pose_unknown_entity", "pose_foreign", "pose_without_pose")
+		},
+	}.Run(t)
+}
+
+func TestC18Model(t *testing.T) {
+	p := prof("c18", map[Op]int{OpLatency: 14, OpPingResp: 70, OpJoin: 3, OpClose: 1, OpTick: 3, OpEntityAdd: 3})
+	p.Setup = 2
+	p.MinSteps, p.MaxSteps = 25, 90
+	p.MaxConns = 3
+	ModelCheck{Prop: "C18", Part: "H", Profile: p,
+		Rule: genRule + "weights favour signed-latency requests (rounds 0,2,3,4,5,8,50,51,60,2^32-1; empty and non-empty wallet) and ping responses (outstanding id 70%, an id answered before 15%, unknown id 15%) sent after a scripted delay of 1us..1s on the fake clock; the final response is checked: signature recovers to the server wallet over exactly the returned bytes, client id, session UUID, wallet, round count, ping ids == issued ids, 0<=min<=mean<=max, p95/last in [min,max], last == delay of the final round; non-trivial = distinct script with a completed measurement with >=3 distinct delays and >=1 misbehaving answer (duplicate, unknown, replay after completion, restart)",
+		NT: func(e *Exec, sc Script) bool {
+			return lab(e, "latency_complete", "latency_3_distinct_delays") && anyLab(e, "ping_answered_again", "ping_unknown_id", "ping_replay_after_completion", "latency_restart")
+		},
+	}.Run(t)
+}
